@@ -365,6 +365,12 @@ func (m *Message) GetClassAdRaw(ctx context.Context) (string, error) {
 func (m *Message) GetClassAdRawBody(ctx context.Context, numExprs int) (string, error) {
 	var b strings.Builder
 	for i := 0; i < numExprs; i++ {
+		// Every expression occupies at least one byte of the message (its
+		// terminator). The count is peer-supplied: once the message is exhausted
+		// stop, instead of reading "" for each of the remaining numExprs rounds.
+		if err := m.ensureData(ctx, 1); err != nil {
+			return "", fmt.Errorf("failed to read expression %d (expected %d): %w", i, numExprs, err)
+		}
 		exprStr, err := m.GetString(ctx)
 		if err != nil {
 			return "", fmt.Errorf("failed to read expression %d (expected %d): %w", i, numExprs, err)
